@@ -60,3 +60,16 @@ func OpGet(o *Out, e *TypeEntry, v reflect.Value, f Form, path []string, viaGet 
 	vid := o.DeclareVal(e, vtok)
 	o.Op(op + " " + e.Tid + " " + string(f) + " " + vid + " | " + PathToks(path) + " | " + mut + " " + res)
 }
+
+// OpReflectGet emits one `GR` record: ReflectInspector.Get on value v through form f (C02: "… and reflect inspectors").
+func OpReflectGet(o *Out, e *TypeEntry, v reflect.Value, f Form, path []string) {
+	vtok := Ser(v)
+	arg, root := MakeArg(e.Type, DeepCopy(v), f)
+	res := callGet(inspector.ReflectInspector{}, arg, path)
+	mut := "0"
+	if Ser(root()) != vtok {
+		mut = "1"
+	}
+	vid := o.DeclareVal(e, vtok)
+	o.Op("GR " + e.Tid + " " + string(f) + " " + vid + " | " + PathToks(path) + " | " + mut + " " + res)
+}
